@@ -52,6 +52,10 @@ def render_project(m: L.Model) -> T.Dict[str, str]:
         t.append(f"message('OPT {n}=@0@'.format(get_option('{n}')))")
     t.append("subproject('sub')")
     t.append("if import('fs').exists(meson.current_source_dir() / 'FAIL')\n  error('injected configuration failure')\nendif")
+    # a failure that only the backend detects, i.e. AFTER coredata has been dumped (needs the .prev restore path)
+    t.append("if import('fs').exists(meson.current_source_dir() / 'FAIL2')\n"
+             "  custom_target('dup1', output: 'dup.out', command: ['true'])\n"
+             "  custom_target('dup2', output: 'dup.out', command: ['true'])\nendif")
     s = ["project('sub', meson_version: '>=1.1')"]
     for n in list(sub) + bi:
         s.append(f"message('OPT sub:{n}=@0@'.format(get_option('{n}')))")
@@ -309,8 +313,9 @@ def run_history(job: T.Tuple[int, int, str, T.Optional[T.List[dict]]]) -> dict:
             kind = 'reconfigure'
         else:
             kind = 'wipe'
-        if os.path.exists(os.path.join(src, 'FAIL')):
-            os.unlink(os.path.join(src, 'FAIL'))
+        for flag in ('FAIL', 'FAIL2'):
+            if os.path.exists(os.path.join(src, flag)):
+                os.unlink(os.path.join(src, flag))
         expect_ok = True
         argv: T.List[str] = []
         if kind == 'edit':
@@ -367,7 +372,8 @@ def run_history(job: T.Tuple[int, int, str, T.Optional[T.List[dict]]]) -> dict:
             step = {'step': 'wipe', 'inject_failure': inject, 'restored': kind == 'restore-and-wipe'}
             inject = inject
         if step.get('inject_failure'):
-            open(os.path.join(src, 'FAIL'), 'w').close()
+            step['failure_kind'] = rng.choice(['FAIL', 'FAIL2'])
+            open(os.path.join(src, step['failure_kind']), 'w').close()
         note(step['step'] + (':expected-fail' if not expect_ok else ''))
         rr = runner.meson(argv, cwd=src, monitors=[monitors])
         for rec in rr.records:
